@@ -179,6 +179,8 @@ def _winit(modname, tier):
     prop = mod.Prop()
     prop.tier = tier
     prop.worker_init()
+    gc.collect()
+    gc.freeze()      # keep explicit gc.collect() events cheap: ignore the import-time heap
     gc.disable()
     _W['prop'] = prop
 
